@@ -150,7 +150,7 @@ Definition rotate_impl64 (l : list T) (k : Z) : res (list T) :=
   else if rot_noop k n then Ok l
   else
     do g <- gcd_impl (rot_gcd_a k n) (rot_gcd_b k n);
-    cycles64 (Z.to_nat (rot_ncycles g)) l k 0.
+    cycles64 (Z.to_nat (rot_ncycles (rot_g g))) l k 0.
 
 Lemma set_zlen (l l' : list T) i x : set l i x = Ok l' -> zlen l' = zlen l.
 Proof.
